@@ -1,6 +1,6 @@
 /* ec_make / ec_exec: refuse to run a shell command while the buffer is modified (C02); no overrun
  * when the command line is assembled (C05); ":range!cmd" filters exactly the range (C06) */
-int xwa;
+int xwa, xvis, xrow, xoff;
 struct ghost_mk_in { int dirty, expand_ok, exec_ret, region_ret, rb, re, has_out; long tlen; } MKI;	/* constants */
 struct ghost_mk { int mod_calls, exec_calls, print_calls, pipe_calls, cp_calls, cp_beg, cp_end, edit_calls, edit_beg, edit_end; char *edit_text, *pipe_cmd, *pipe_in; char *exec_cmd; int bad; } MK;
 static char g_target[1024], g_mkcp[2], g_mkout[2];
@@ -78,6 +78,63 @@ void h_ec_exec(void)
 		else
 			H_ASSERT(MK.edit_calls == 0, "ec_exec: a command that could not be run leaves the text unchanged");
 	}
+#ifdef CANARY
+	__CPROVER_assert(0, "canary");
+#endif
+}
+
+
+/* ================================================================== ec_print (C06: "printed output and current line") and ec_rs (register set) */
+struct ghost_pt_in { int nlines; } PTI;
+struct ghost_pt { int printed, next, bad; int put_calls, put_reg, put_ln; char *put_text; } PT;
+static char g_ptline[2];
+int lbuf_len(struct lbuf *lb) { return PTI.nlines; }
+char *lbuf_get(struct lbuf *lb, int pos)
+{
+	if (pos != PT.next)
+		PT.bad = 1;	/* lines are printed in order, none skipped, none twice */
+	PT.next = pos + 1;
+	return pos >= 0 && pos < PTI.nlines ? g_ptline : (char *) 0;
+}
+void reg_put(int c, char *s, int ln) { PT.put_calls++; PT.put_reg = c; PT.put_text = s; PT.put_ln = ln; }
+int ec_print_frame_contract(char *loc, char *cmd, char *arg, char *txt)
+__CPROVER_requires(loc != 0 && cmd != 0)
+__CPROVER_assigns(MK, PT, xrow, xoff)
+;
+void h_ec_print(void)
+{
+	char loc[2], cmd[2], arg[2];
+	MK_INIT();
+	PTI.nlines = nondet_int();
+	__CPROVER_assume(0 <= PTI.nlines && PTI.nlines <= 0x1000000 && MKI.re <= PTI.nlines);
+	loc[0] = nondet_char(); loc[1] = 0; cmd[0] = nondet_char(); cmd[1] = 0; arg[0] = 0;
+	xrow = nondet_int(); xoff = nondet_int();
+	__CPROVER_assume(0 <= xrow && xrow <= 0x1000000);
+	PT.printed = 0; PT.next = MKI.rb; PT.bad = 0;
+	int row0 = xrow;
+	int ret = ec_print(loc, cmd, arg, 0);
+	if ((!cmd[0] && !loc[0] && row0 >= PTI.nlines) || MKI.region_ret) {
+		H_ASSERT(ret == 1 && MK.print_calls == 0 && xrow == row0, "ec_print: an address that does not resolve prints nothing and leaves the current line alone");
+	} else {
+		H_ASSERT(ret == 0 && !PT.bad && MK.print_calls == MKI.re - MKI.rb && PT.next == (MKI.re > MKI.rb ? MKI.re : MKI.rb), "ec_print: exactly the addressed lines are printed, in order, each once");
+		H_ASSERT(xrow == (MKI.re - 1 > MKI.rb ? MKI.re - 1 : MKI.rb) && xoff == 0, "ec_print: the current line becomes the last line printed");
+		H_ASSERT(MK.edit_calls == 0, "ec_print: the buffer is not changed");
+	}
+#ifdef CANARY
+	__CPROVER_assert(0, "canary");
+#endif
+}
+void h_ec_rs(void)
+{
+	char loc[2], cmd[3], arg[3], txt[2];
+	MK_INIT();
+	loc[0] = 0; cmd[0] = 'r'; cmd[1] = 's'; cmd[2] = 0; txt[0] = nondet_char(); txt[1] = 0;
+	arg[0] = nondet_char(); arg[1] = nondet_char(); arg[2] = 0;
+	PT.put_calls = 0;
+	int ret = ec_rs(loc, cmd, arg, txt);
+	int reg = arg[0] != '\\' ? (unsigned char) arg[0] : 0x80 | (unsigned char) arg[1];
+	H_ASSERT(ret == 0 && PT.put_calls == 1 && PT.put_reg == reg && PT.put_text == txt && PT.put_ln == 1, "ec_rs: the text given becomes the line-wise content of the register named (\\x names the registers above 127)");
+	H_ASSERT(0 <= PT.put_reg && PT.put_reg < 256, "ec_rs: the register index is inside the register table");
 #ifdef CANARY
 	__CPROVER_assert(0, "canary");
 #endif
